@@ -3,8 +3,15 @@ module github.com/spq/pkappa2/verifx
 go 1.25.0
 
 require (
+	github.com/gopacket/gopacket v1.6.1
 	github.com/spq/pkappa2 v0.0.0
 	rsc.io/binaryregexp v0.2.0
+)
+
+require (
+	github.com/alecthomas/participle/v2 v2.1.4 // indirect
+	golang.org/x/net v0.55.0 // indirect
+	golang.org/x/sys v0.46.0 // indirect
 )
 
 replace github.com/spq/pkappa2 => /repo
